@@ -192,10 +192,14 @@ func parseContractFile(path string) (*PkgContracts, error) {
 			// monitor T.mu invariant INV rely R
 			f := strings.Fields(rest)
 			i := strings.Index(f[0], ".")
-			if len(f) != 5 || i < 0 || f[1] != "invariant" || f[3] != "rely" {
-				return nil, fmt.Errorf("%s:%d: monitor TYPE.FIELD invariant SPEC rely SPEC", path, ln)
+			if (len(f) != 5 && len(f) != 7) || i < 0 || f[1] != "invariant" || f[3] != "rely" || (len(f) == 7 && f[5] != "assuming") {
+				return nil, fmt.Errorf("%s:%d: monitor TYPE.FIELD invariant SPEC rely SPEC [assuming SPEC]", path, ln)
 			}
-			pc.Monitors = append(pc.Monitors, &monitorDecl{Type: f[0][:i], Field: f[0][i+1:], Inv: f[2], Rely: f[4], Line: ln})
+			md := &monitorDecl{Type: f[0][:i], Field: f[0][i+1:], Inv: f[2], Rely: f[4], Line: ln}
+			if len(f) == 7 {
+				md.Assuming = f[6]
+			}
+			pc.Monitors = append(pc.Monitors, md)
 			cur, curLemma, curTable = nil, nil, nil
 			last = nil
 		case "atomiccell":
